@@ -192,6 +192,13 @@ def step (_ : Unit) (line : String) : Unit × String :=
           s!"ok b:{showVecs [b.r0, b.r1, b.r2]} {showRat a'},{showRat b'},{showRat c'} {boolStr f1},{boolStr f2},{boolStr f3}"
         | none => "unmodelled"
       | _, _, _ => "bad-op"
+    | ["dihclass", _, a] =>
+      match parseArr a with
+      | some (.l [p1, p2, p3, p4]) =>
+        match dihedralClass p1 p2 p3 p4 with
+        | some t => "ok " ++ t
+        | none => "unmodelled"
+      | _ => "bad-op"
     | ["centroid", _, a] =>
       match parseArr a with
       | some (.l xs) => match centroid xs with
